@@ -801,6 +801,29 @@ func checkAndPropagateArgs(
 		defineArgIdx++
 	}
 
+	// the walk may stop before the keywords (no argument left after a
+	// defaulted or rest parameter): a required keyword is required all the same
+	for _, definedArg := range sortedDfineArgs[min(defineArgIdx, len(sortedDfineArgs)):] {
+		if !base.IsKeySuffix(definedArg) {
+			continue
+		}
+
+		definedArg = base.RemoveSuffix(definedArg)
+		definedArgT := getDefinedArgT(m, methodT, class, definedArg)
+
+		if isNotDefineNamedArgError(true, definedArgT, sortedArgTs, definedArg) {
+			err = fmt.Errorf(
+				"%s: is not defined expected %s",
+				definedArg,
+				makeDefineArgumentInfo(m, class, methodT),
+			)
+
+			if m.ctx.IsCheckRound() {
+				return err
+			}
+		}
+	}
+
 	// the stand-in for a method nobody declared (a call on an untyped receiver)
 	// takes anything; a declared method is checked like any other, whatever it
 	// returns and also when it declares no parameters
